@@ -361,6 +361,9 @@ class Report:
         # evidence describes runs against /repo itself; runs against another tree (VERIF_REPO,
         # used for mutant experiments) must not overwrite it
         evdir = os.path.join(VERIF, 'evidence') if REPO == '/repo' else os.path.join(BUILD, 'evidence-alt')
+        if REPO == '/repo' and self.prop.upper().startswith('X'):
+            # additional checks beyond the listed properties (ids X..): evidence/ is reserved for listed ids
+            evdir = os.path.join(VERIF, 'evidence-extra')
         os.makedirs(evdir, exist_ok=True)
         with open(os.path.join(evdir, self.prop + '.json'), 'w') as fh:
             json.dump(ev, fh, indent=1, sort_keys=True)
